@@ -67,6 +67,16 @@ def alloc (s : State) (k : Nat) : State × Obs :=
       ({ s with avail := rest, held := AMap.insert s.held k a,
                 rev := if s.cfg.hasRev then AMap.insert s.rev a k else s.rev }, .okAddr a)
 
+/-- n requests of the same key one after the other: the linearisation of a BURST of n concurrent
+    Allocate calls for one key (each call runs under the pool's mutex, so a concurrent burst is some
+    sequence of n calls).  Returns the final state and the n answers. -/
+def allocN (s : State) (k : Nat) : Nat → State × List Obs
+  | 0 => (s, [])
+  | n + 1 =>
+    let r := alloc s k
+    let rest := allocN r.1 k n
+    (rest.1, r.2 :: rest.2)
+
 /-- Release by key (dhcpv6, pppoe, LocalPool): no result -/
 def release (s : State) (k : Nat) : State × Obs :=
   match s.held.lookup k with
